@@ -1,4 +1,5 @@
 import Ccp.Model.Cli
+import Ccp.Proofs.Mac
 /-!
 Helper definitions (the spec side of C18) and lemmas for `Ccp.Props.C18`.
 -/
@@ -16,9 +17,11 @@ def insNew (acc : List α) (x : α) : List α := if acc.contains x then acc else
 /-- the first occurrence of every element, in order of appearance -/
 def firstOccs (l : List α) : List α := l.foldl insNew []
 
+omit [LawfulBEq α] in
 theorem insNew_pos {acc : List α} {x : α} (h : acc.contains x = true) : insNew acc x = acc := by
   unfold insNew; rw [if_pos h]
 
+omit [LawfulBEq α] in
 theorem insNew_neg {acc : List α} {x : α} (h : ¬ acc.contains x = true) : insNew acc x = acc ++ [x] := by
   unfold insNew; rw [if_neg h]
 
@@ -75,6 +78,7 @@ theorem nodup_foldl_insNew (l acc : List α) (h : acc.Nodup) : (l.foldl insNew a
       intro hab
       exact hy (hab ▸ ha)
 
+omit [LawfulBEq α] in
 theorem foldl_insNew_sublist (l acc : List α) :
     ∃ t, l.foldl insNew acc = acc ++ t ∧ t.Sublist l := by
   induction l generalizing acc with
@@ -150,6 +154,7 @@ theorem firstOccs_eq_eraseDups (n : Nat) (l : List α) (hn : l.length ≤ n) :
       rw [firstOccs_cons, List.eraseDups_cons, ih]
       exact Nat.le_trans (List.length_filter_le _ _) (by simpa using hn)
 
+omit [BEq α] [LawfulBEq α] in
 theorem foldl_append_toList {β : Type} (f : β → Option α) (l : List β) (init : List α) :
     l.foldl (fun acc w => acc ++ (f w).toList) init = init ++ l.filterMap f := by
   induction l generalizing init with
@@ -358,7 +363,7 @@ theorem findSome_none' {β γ : Type} (l : List β) : l.findSome? (fun _ => (non
 theorem findSome_if {β γ : Type} (p : β → Bool) (c : Bool) (r : γ) (l : List β) :
     l.findSome? (fun s => if p s && c then some r else none) = if l.any p && c then some r else none := by
   cases c with
-  | false => simpa using findSome_none' l
+  | false => simp
   | true =>
     simp only [Bool.and_true]
     induction l with
@@ -511,6 +516,103 @@ theorem macLineHas_eq (O : Oracle) (regexes : List Str) (line : Str) :
       rw [List.foldl_cons, ih, List.any_cons]
       cases b <;> simp
   simpa using this false
+
+section MacLemmas
+open Ccp.Mac
+
+/-- the class reported by `macaddress.parse(s, cls)` is `cls` -/
+theorem parse_single_cls (k : Kind) (s : Str) (v : Nat) (c : Cls)
+    (h : Mac.parse [k.cls] s = .ok (v, c)) : c = k.cls := by
+  have ok := candsOK k s.length
+  unfold Mac.parse at h
+  by_cases hs : s.length < 1
+  · simp [hs] at h
+  simp only [hs, if_false] at h
+  by_cases hC : candidates [k.cls] s.length = []
+  · match s, hs with
+    | c0 :: cs, _ => rw [hC, loop_nil_cands] at h; cases h
+  · have inv : Inv (candidates [k.cls] s.length) s.length :=
+      ⟨ok.sorted, fun c hc => (ok.sound c hc).1⟩
+    have sp := loop_spec s 0 _ inv hC
+    by_cases hF : (candidates [k.cls] s.length).filter (fun c => tmatch c.rest s) = []
+    · rw [sp.1 hF] at h; cases h
+    · obtain ⟨out, ho, hid⟩ := sp.2 hF
+      rw [ho] at h
+      cases out with
+      | nil => cases h
+      | cons k0 rest =>
+        simp only [Except.ok.injEq, Prod.mk.injEq] at h
+        have hmem : k0.id ∈ ((candidates [k.cls] s.length).filter (fun c => tmatch c.rest s)).map Cand.id := by
+          rw [← hid]; simp
+        obtain ⟨c', hc', hid'⟩ := List.mem_map.mp hmem
+        have hc'' := (List.mem_filter.mp hc').1
+        have := (ok.sound c' hc'').2.2
+        have e : c'.cls = k0.cls := by
+          have := congrArg Prod.snd hid'
+          simpa [Cand.id] using this
+        rw [← h.2, ← e, this]
+
+theorem cands_both (k : Kind) (t : Str) (ht : t ∈ k.cls.formats) :
+    candidates [eui48, eui64] t.length = candidates [k.cls] t.length := by
+  cases k with
+  | mac =>
+    simp only [Kind.cls, eui48, List.mem_cons, List.mem_nil_iff, or_false] at ht
+    rcases ht with rfl | rfl | rfl | rfl <;> decide
+  | eui64 =>
+    simp only [Kind.cls, eui64, List.mem_cons, List.mem_nil_iff, or_false] at ht
+    rcases ht with rfl | rfl | rfl | rfl <;> decide
+
+/-- `MACEUISearch` classifies a word as kind `k` with value `v` exactly when C16's constructor of
+that kind accepts it with that value -/
+theorem macOf_iff (w : Str) (k : Kind) (v : Nat) :
+    macOf w = some (k, v) ↔ Mac.parseObj k w = .ok v := by
+  constructor
+  · intro h
+    unfold macOf at h
+    split at h
+    · cases h
+    · split at h
+      · split at h
+        · cases h; assumption
+        · cases h
+      · split at h
+        · split at h
+          · cases h; assumption
+          · cases h
+        · cases h
+  · intro h
+    have h' := h
+    rw [parseObj_eq] at h'
+    by_cases hany : k.cls.formats.any (fun t => tmatch t w) = true
+    · obtain ⟨t, ht, hm⟩ := List.any_eq_true.mp hany
+      have hlen := tmatch_length t w hm
+      have hc := cands_both k t ht
+      rw [hlen] at hc
+      have hp : Mac.parse [eui48, eui64] w = Mac.parse [k.cls] w := by
+        unfold Mac.parse
+        rw [hc]
+      -- what `parse [k.cls] w` is
+      unfold Mac.parseObj at h
+      cases hq : Mac.parse [k.cls] w with
+      | error e => rw [hq] at h; cases h
+      | ok r =>
+        obtain ⟨v', c⟩ := r
+        have hcls := parse_single_cls k w v' c hq
+        subst hcls
+        unfold macOf
+        rw [hp, hq]
+        have hobj : Mac.parseObj k w = .ok v := by unfold Mac.parseObj; rw [hq]; rw [hq] at h; exact h
+        cases k with
+        | mac =>
+          simp only [Kind.cls, if_true]
+          rw [hobj]
+        | eui64 =>
+          have hne : Mac.eui64 ≠ Mac.eui48 := by decide
+          simp only [Kind.cls, hne, if_false, if_true]
+          rw [hobj]
+    · rw [if_neg hany] at h'; cases h'
+
+end MacLemmas
 
 /-! ### sub-commands -/
 
